@@ -28,7 +28,7 @@ func init() {
 	Register(&Rule{ID: "R-ISO-1", Props: []string{"C08", "C14", "C16", "C20"}, Floor: 60,
 		Doc: "(a) forward taint from every raw read of a view container (type assertion interface{}→*View on sync.Map contents, (ViewMap).Load/LoadDirect and every function that returns such a value, Range callbacks): the raw view, its Header/RecordSet/records are never stored through, appended to, passed to a callee whose bottom-up summary mutates that parameter, or stored into memory other than a view container; " +
 			"(b) every store to a field of query.FileInfo (directly or via a callee that writes its FileInfo/view parameter) writes an object that is provably private: allocated by this function, obtained from a FileInfo constructor, reached through a view whose FileInfo field this function assigned from such a value, or guarded by IsUpdatable()==false (kinds that are never cached) — View.Copy shares the FileInfo pointer with the cache, so any other write changes the cached table",
-		Controls: []string{"CtlMutateRawView", "CtlMutateRawViaCallee", "CtlRawViewEscapes", "CtlSharedFileInfoWrite"},
+		Controls: []string{"CtlMutateRawView", "CtlMutateRawViaCallee", "CtlRawViewEscapes", "CtlSharedFileInfoWrite", "CtlFileInfoWriteAfterReassign", "CtlWriteAfterMixedLoader:", "CtlWriteAfterMixedLoaderPlain"},
 		Run:      ruleIso1})
 	Register(&Rule{ID: "R-ISO-2", Props: []string{"C08", "C20", "C03"}, Floor: 13,
 		Doc:      "every *View returned by ViewMap.Get, ViewMap.GetWithInternalId, InlineTableMap.Get, Session.GetStdinView (and GetTemporaryTable*/GetInlineTable built on them) is nil or the result of (*View).Copy (possibly through another such accessor); every element read of an InlineTableMap and every read of ReferenceScope.RecursiveTmpView is used only as the receiver of Copy, in a nil test, or to hand the same reference to a child scope",
@@ -1087,38 +1087,8 @@ func (fe *fiEngine) prov(fn *ssa.Function, v ssa.Value, at ssa.Instruction) []fi
 // viewProv: the FileInfo is read from field FileInfo of view fa.X by load ld.
 func (fe *fiEngine) viewProv(fn *ssa.Function, fa *ssa.FieldAddr, ld *ssa.UnOp, at ssa.Instruction) []fiProv {
 	// 1. this function assigned the field from a private value, and that store dominates the read
-	aliases := aliasesOf(fa.X)
-	for _, o := range core.Origins(fa.X, false) {
-		for a := range aliasesOf(o) {
-			aliases[a] = true
-		}
-	}
-	for a := range aliases {
-		refs := a.Referrers()
-		if refs == nil {
-			continue
-		}
-		for _, rr := range *refs {
-			fa2, ok := rr.(*ssa.FieldAddr)
-			if !ok || fa2.Field != fa.Field || !isViewFileInfoField(fa2.X, fa2.Field) {
-				continue
-			}
-			for _, r3 := range *fa2.Referrers() {
-				st, ok := r3.(*ssa.Store)
-				if !ok || st.Addr != fa2 || !core.Dominates(st, ld) {
-					continue
-				}
-				private := true
-				for _, pv := range fe.prov(fn, st.Val, st) {
-					if pv.kind != "fresh" {
-						private = false
-					}
-				}
-				if private {
-					return []fiProv{{kind: "fresh", why: "this function assigned the view's FileInfo from a private value at " + fe.p.InstrPos(st)}}
-				}
-			}
-		}
+	if st := fe.privateAssignment(fn, fa.X, ld); st != nil {
+		return []fiProv{{kind: "fresh", why: "this function assigned the view's FileInfo from a private value at " + fe.p.InstrPos(st)}}
 	}
 	// 2. guarded: IsUpdatable() on the same FileInfo cell is false here
 	if fe.guardedNotUpdatable(fa, at) {
@@ -1174,7 +1144,18 @@ func (fe *fiEngine) guardedNotUpdatable(fa *ssa.FieldAddr, at ssa.Instruction) b
 		if !ok || ld.Op != token.MUL {
 			continue
 		}
-		if core.SameAddr(ld.X, fa) {
+		gfa, ok := ld.X.(*ssa.FieldAddr)
+		if !ok || !isViewFileInfoField(gfa.X, gfa.Field) || !sameObjectAt(gfa.X, call, fa.X, at) {
+			continue
+		}
+		// the field is not re-pointed between the test and the write
+		moved := false
+		for _, st := range fileInfoFieldStores(at.Parent()) {
+			if core.Reachable(call, st, nil) && core.Reachable(st, at, nil) {
+				moved = true
+			}
+		}
+		if !moved {
 			return true
 		}
 	}
@@ -1320,30 +1301,172 @@ func (fe *fiEngine) computeViewFI(fn *ssa.Function) int {
 	return res
 }
 
-// assignedFI: the single store `v.FileInfo = X` made by fn on view object v.
-func (fe *fiEngine) assignedFI(fn *ssa.Function, v ssa.Value) (int, bool) {
-	found := false
-	res := fiUnknown
-	for a := range aliasesOf(v) {
-		refs := a.Referrers()
-		if refs == nil {
-			continue
-		}
-		for _, rr := range *refs {
-			fa, ok := rr.(*ssa.FieldAddr)
-			if !ok || !isViewFileInfoField(fa.X, fa.Field) {
-				continue
-			}
-			for _, r3 := range *fa.Referrers() {
-				if st, ok := r3.(*ssa.Store); ok && st.Addr == fa {
-					k := fe.provToK(fn, st.Val, st)
-					if found && k != res {
-						return fiUnknown, true
-					}
-					found, res = true, k
+// fileInfoFieldStores lists the stores `X.FileInfo = …` of fn (X any *View value).
+func fileInfoFieldStores(fn *ssa.Function) []*ssa.Store {
+	var out []*ssa.Store
+	for _, b := range fn.Blocks {
+		for _, in := range b.Instrs {
+			if st, ok := in.(*ssa.Store); ok {
+				if fa, ok := st.Addr.(*ssa.FieldAddr); ok && isViewFileInfoField(fa.X, fa.Field) {
+					out = append(out, st)
 				}
 			}
 		}
+	}
+	return out
+}
+
+// cellWrites returns the stores to a local variable cell; ok=false when the
+// cell can also be written where this function cannot see the order (its
+// address escapes, or a closure assigns it).
+func cellWrites(cell *ssa.Alloc) (stores []*ssa.Store, ok bool) {
+	ok = true
+	var visit func(c ssa.Value, inClosure bool)
+	seen := map[ssa.Value]bool{}
+	visit = func(c ssa.Value, inClosure bool) {
+		if seen[c] {
+			return
+		}
+		seen[c] = true
+		refs := c.Referrers()
+		if refs == nil {
+			ok = false
+			return
+		}
+		for _, r := range *refs {
+			switch x := r.(type) {
+			case *ssa.Store:
+				if x.Addr == c {
+					if inClosure {
+						ok = false // assigned by a closure: no order against the enclosing function
+					} else {
+						stores = append(stores, x)
+					}
+				} else {
+					ok = false // the address itself is stored
+				}
+			case *ssa.UnOp, *ssa.DebugRef:
+			case *ssa.MakeClosure:
+				fn, _ := x.Fn.(*ssa.Function)
+				for i, b := range x.Bindings {
+					if b == c && fn != nil && i < len(fn.FreeVars) {
+						visit(fn.FreeVars[i], true)
+					}
+				}
+			default:
+				ok = false
+			}
+		}
+	}
+	visit(cell, false)
+	return
+}
+
+// sameObjectAt: value a, used at instruction ia, and value b, used at the later
+// instruction ib (ia dominates ib), denote the same *View object: the same SSA
+// value, or two loads of one variable that is not reassigned in between.
+func sameObjectAt(a ssa.Value, ia ssa.Instruction, b ssa.Value, ib ssa.Instruction) bool {
+	if a == b {
+		return true
+	}
+	la, ok1 := a.(*ssa.UnOp)
+	lb, ok2 := b.(*ssa.UnOp)
+	if !ok1 || !ok2 || la.Op != token.MUL || lb.Op != token.MUL || la.X != lb.X {
+		return false
+	}
+	cell, ok := la.X.(*ssa.Alloc)
+	if !ok {
+		return false
+	}
+	stores, complete := cellWrites(cell)
+	if !complete {
+		return false
+	}
+	for _, st := range stores {
+		// a reassignment that can run after a was read and before b is read
+		if core.Reachable(la, st, nil) && core.Reachable(st, lb, nil) {
+			return false
+		}
+	}
+	return true
+}
+
+// privateAssignment: fn stores a private FileInfo into field FileInfo of the
+// very object `view` (as used at instruction `at`), that store dominates `at`,
+// and no other store to that field of a possibly identical object that can
+// still reach `at` puts something non-private there. Returns the store or nil.
+func (fe *fiEngine) privateAssignment(fn *ssa.Function, view ssa.Value, at ssa.Instruction) *ssa.Store {
+	if at.Parent() != fn {
+		return nil
+	}
+	isPrivate := func(st *ssa.Store) bool {
+		for _, pv := range fe.prov(fn, st.Val, st) {
+			if pv.kind != "fresh" {
+				return false
+			}
+		}
+		return true
+	}
+	var found *ssa.Store
+	for _, st := range fileInfoFieldStores(fn) {
+		if st == at {
+			continue
+		}
+		base := st.Addr.(*ssa.FieldAddr).X
+		if core.Dominates(st, at) && sameObjectAt(base, st, view, at) && isPrivate(st) {
+			found = st
+		}
+	}
+	if found == nil {
+		return nil
+	}
+	// nothing non-private may overwrite it on the way
+	for _, st := range fileInfoFieldStores(fn) {
+		if st == found || isPrivate(st) {
+			continue
+		}
+		if core.Reachable(found, st, nil) && core.Reachable(st, at, nil) {
+			return nil
+		}
+	}
+	return found
+}
+
+// assignedFI: fn itself sets field FileInfo of the view object o it returns:
+// the store addresses exactly o (an SSA value, or a variable that only ever
+// holds o) and dominates every return that can yield o.
+func (fe *fiEngine) assignedFI(fn *ssa.Function, o ssa.Value) (int, bool) {
+	found := false
+	res := fiUnknown
+	for _, st := range fileInfoFieldStores(fn) {
+		base := st.Addr.(*ssa.FieldAddr).X
+		os := core.Origins(base, false)
+		if len(os) != 1 || os[0] != o {
+			continue
+		}
+		dominatesAll := true
+		for _, r := range core.Returns(fn) {
+			if len(r.Results) == 0 {
+				continue
+			}
+			yields := false
+			for _, ro := range core.Origins(r.Results[0], false) {
+				if ro == o {
+					yields = true
+				}
+			}
+			if yields && !core.Dominates(st, r) {
+				dominatesAll = false
+			}
+		}
+		if !dominatesAll {
+			return fiUnknown, true // set on some paths only
+		}
+		k := fe.provToK(fn, st.Val, st)
+		if found && k != res {
+			return fiUnknown, true
+		}
+		found, res = true, k
 	}
 	return res, found
 }
@@ -1455,32 +1578,8 @@ func (fe *fiEngine) provAt(s fiSite) []fiProv {
 		return fe.prov(s.fn, s.v, s.in)
 	}
 	// FileInfo of a view argument: as if `arg.FileInfo` were read here
-	for a := range aliasesOf(s.view) {
-		refs := a.Referrers()
-		if refs == nil {
-			continue
-		}
-		for _, rr := range *refs {
-			fa, ok := rr.(*ssa.FieldAddr)
-			if !ok || !isViewFileInfoField(fa.X, fa.Field) {
-				continue
-			}
-			for _, r3 := range *fa.Referrers() {
-				st, ok := r3.(*ssa.Store)
-				if !ok || st.Addr != fa || !core.Dominates(st, s.in) {
-					continue
-				}
-				private := true
-				for _, pv := range fe.prov(s.fn, st.Val, st) {
-					if pv.kind != "fresh" {
-						private = false
-					}
-				}
-				if private {
-					return []fiProv{{kind: "fresh", why: "this function assigned the view's FileInfo from a private value at " + fe.p.InstrPos(st)}}
-				}
-			}
-		}
+	if st := fe.privateAssignment(s.fn, s.view, s.in); st != nil {
+		return []fiProv{{kind: "fresh", why: "this function assigned the view's FileInfo from a private value at " + fe.p.InstrPos(st)}}
 	}
 	var out []fiProv
 	for _, o := range core.Origins(s.view, false) {
